@@ -52,9 +52,9 @@ SPEC = dict(
                     strings_len0=1, strings_len1=256, strings_len2=65536, strings_len3=16777216, strings_len4_lead4=134217728, decoder_inputs=150000000, fromstring_values_compared=7000000,
                     offline_isvalid_compared=65793, offline_decodes_compared=2000,
                     int_values=4000000, int_texts_compared=4000000, int_parses=12000000, offline_ints_compared=200000,
-                    int_attached_views=4000000, int_attached_parses=14000000, int_attached_unterminated_parses=9000000, int_attached_terminated_parses=500000, int_attached_views_with_digits_behind=2000000,
+                    int_attached_views=4000000, int_attached_parses=13000000, int_attached_unterminated_parses=8500000, int_attached_terminated_parses=500000, int_attached_views_with_digits_behind=2000000,
                     int_attached_views_ending_at_block_end=1500000, int_attached_round_trips=4000000, int_attached_empty_views=24, attached_state_confirmed=20000000,
-                    double_attached_parses=2500000, double_texts_attached=60000, offline_attached_parses_compared=400000,
+                    double_attached_parses=2500000, double_texts_attached=60000, offline_attached_parses_compared=250000,
                     hex_single_bytes=256, hex_calls=180000, offline_hex_compared=30000,
                     b64_roundtrips=17000000, offline_base64_compared=300000, b64_group_position_pairs=393216, b64_inputs_with_high_bytes=1000000, b64_random_arbitrary=2000000,
                     **{'set:first_sequence_classes': 6, 'set:code_point_classes': 5, 'set:int_classes': 7, 'set:b64_padding_classes': 3, 'set:b64_free_positions': 6,
